@@ -66,6 +66,8 @@ def parseFlags (s : String) : Option Flags :=
     | ["minfree", v] => v.toNat?.map fun n => { f with minfree := n }
     | ["block", v] => v.toNat?.map fun n => { f with block := n }
     | ["iw", v] => v.toInt?.map fun n => { f with iw := n }
+    -- cookie affinity without `session-cookie-preserve`: not read by the dynamic update (only Preserve is)
+    | ["aff", _] => some f
     | _ => none) {}
 
 /-- the whole `dynUpdater.update()` for a single changed backend: pair check, then `alignSlots`
